@@ -64,7 +64,7 @@ pub fn gen_doc(rng: &mut Rng, tier: Tier, o: &DocOpts) -> Doc {
     let mut last_empty = false;
     if o.shaping {
         if rng.chance(1, 5) {
-            let t = *rng.pick(&[126u64, 127, 128, 16382, 16383, 16384, 127, 16383]);
+            let t = if rng.chance(1, 300) { 2_097_151 } else { *rng.pick(&[126u64, 127, 128, 16382, 16383, 16384, 127, 16383]) };
             if gen::pad_master_to(rng, &mut tree, t) {
                 padded = Some(t);
             }
